@@ -459,6 +459,40 @@ def _execute(world_cls, seed, knobs, ops, S, wall_limit=RUN_WALL_LIMIT):
     return res
 
 
+_PATH_SEAM = [False]
+PATH_SEAM_NOTE = (
+    "cotengra 'auto' / 'auto-hq' path search beyond its exact-search cutoff (a randomised, "
+    "wall-clock-budgeted hyper-optimisation on a process pool) -> deterministic greedy search in-process"
+)
+
+
+def pin_path_search():
+    """Seam S9: quimb's default ``optimize='auto-hq'`` hands networks that are
+    too large for cotengra's exact search to a hyper-optimiser: random trials
+    until a wall-clock budget runs out, on a process pool of its own.  Neither
+    the clock nor the pool belongs in a simulated run (and a pool inside a
+    forked worker can hang), so that branch is replaced by cotengra's
+    deterministic greedy search.  Contraction *values* do not depend on the
+    path beyond rounding."""
+    if _PATH_SEAM[0]:
+        return
+    import cotengra.presets as presets
+    from cotengra import ContractionTree
+    from cotengra.pathfinders.path_basic import optimize_greedy
+
+    class _Greedy:
+        def search(self, inputs, output, size_dict, **kwargs):
+            ssa = optimize_greedy(inputs, output, size_dict, use_ssa=True)
+            return ContractionTree.from_path(inputs, output, size_dict, ssa_path=ssa)
+
+        def __call__(self, inputs, output, size_dict, **kwargs):
+            return optimize_greedy(inputs, output, size_dict, use_ssa=False)
+
+    g = _Greedy()
+    presets.AutoOptimizer._get_optimizer_hyper_threadsafe = lambda self: g
+    _PATH_SEAM[0] = True
+
+
 def _seed_libraries(prop, seed):
     """Seam S5: library RNG state a run could otherwise inherit from whatever
     the worker process did before (numpy's global generator, quimb's
@@ -470,6 +504,7 @@ def _seed_libraries(prop, seed):
     if qu is None:
         import quimb as qu
     qu.seed_rand(s)
+    pin_path_search()
 
 
 def run_seed(world_cls, seed):
